@@ -249,4 +249,12 @@ theorem inv2_run (s : St) (ls : List (Who × Lab)) (hi : Inv2 s) : Inv2 (run s l
     · rename_i s' hs; exact ih s' (inv2_step s s' x l hi hs)
     · exact ih s hi
 
+theorem run_append (s : St) (l1 l2 : List (Who × Lab)) : run s (l1 ++ l2) = run (run s l1) l2 := by
+  induction l1 generalizing s with
+  | nil => rfl
+  | cons a as ih =>
+    obtain ⟨y, k⟩ := a
+    simp only [List.cons_append, run]
+    split <;> exact ih _
+
 end Remoc.Table.Sys
